@@ -312,3 +312,62 @@ Section ProtocolSteps.
   Qed.
 End ProtocolSteps.
 
+(* ---------- one-way links ---------- *)
+(* a value-changing assignment on the source reaches the target *)
+Lemma oneway_source_assign F n m va vb nts v :
+  inv (MOneway n m) va vb -> kind_ok n v = true -> nth_error va n <> Some v ->
+  let r := step (S (S F)) (st_of (MOneway n m) va vb nts) (Assign 0%nat n v) in
+  sval (ob_vals (snd r)) (0%nat, n) = Some v /\ sval (ob_vals (snd r)) (1%nat, m) = Some v.
+Proof.
+  intros Hi Hk Hne r.
+  assert (n < 4)%nat as Hn by (destruct Hi as (_ & _ & Hl & _); exact Hl).
+  destruct (oneway_assign F n m va vb nts 0%nat n v Hi ltac:(lia) Hn) as (va' & vb' & _ & _ & _ & _ & Hlaw).
+  fold r in Hlaw. unfold law_step in Hlaw. cbn [edges_of snap_of plain edges_after] in Hlaw.
+  rewrite Hk in Hlaw.
+  repeat (apply app_eq_nil in Hlaw; let H1 := fresh "C" in destruct Hlaw as [H1 Hlaw]).
+  apply chk_nil in C0, Hlaw. apply oval_eqb_eq in Hlaw. split; [exact Hlaw|].
+  rewrite sval2 in C0. apply orb_prop in C0. destruct C0 as [C0|C0].
+  - apply oval_eqb_eq in C0. contradiction.
+  - unfold succs in C0. cbn [edges_of filter fst snd node_eqb key_eqb map] in C0.
+    unfold node_eqb, key_eqb in C0. cbn [fst snd] in C0. rewrite !Nat.eqb_refl in C0.
+    cbn in C0. rewrite andb_true_r in C0. apply oval_eqb_eq in C0. exact C0.
+Qed.
+(* the reverse direction is inert: nothing done to object 1 reaches object 0 *)
+Lemma oneway_reverse_inert F n m va vb nts o :
+  inv (MOneway n m) va vb ->
+  (match o with
+   | Assign x k _ => x = 1%nat /\ (k < 4)%nat
+   | Mut x k mu => x = 1%nat /\ (k < 4)%nat /\ (forall l, replay_ok l mu)
+   | _ => False end) ->
+  let r := step (S (S F)) (st_of (MOneway n m) va vb nts) o in
+  forall j, (j < 4)%nat ->
+    sval (ob_vals (snd r)) (0%nat, j) = nth_error va j /\ scnt (ob_cnt (snd r)) (0%nat, j) = 0.
+Proof.
+  intros Hi Ho r j Hj.
+  assert (post (MOneway n m) (MOneway n m) va vb o r) as (va' & vb' & _ & Hi' & _ & Hv & Hlaw).
+  { destruct o; try contradiction.
+    - destruct Ho as [-> ?]. apply oneway_assign; auto.
+    - destruct Ho as (-> & ? & ?). apply oneway_mut; auto. }
+  pose proof (law_step_clauses _ _ _ _ Hlaw) as Hc. cbn zeta in Hc.
+  destruct (plain (snap_of (MOneway n m) va vb) o) as [expected target] eqn:Hp.
+  destruct Hc as (_ & C4 & _).
+  rewrite forallb_forall in C4.
+  specialize (C4 (0%nat, j)). 
+  assert (In (0%nat, j) (all_nodes (snap_of (MOneway n m) va vb))) as Hin.
+  { cbn. destruct j as [|[|[|[|j]]]]; try lia; auto 10. }
+  specialize (C4 Hin). clear Hin.
+  destruct Hi as (Ta & Tb & Hl). 
+  assert (has_node (0%nat, j) (reach (edges_after (edges_of (MOneway n m)) o) (origins o expected)) = false) as Hr.
+  { destruct o; try contradiction.
+    - destruct Ho as [-> Hk]. cbn [edges_after edges_of]. names_cases n m Hl;
+      destruct expected; cbn; try reflexivity; destruct n0 as [|[|[|[|n0]]]]; try lia; reflexivity.
+    - destruct Ho as (-> & Hk & _). cbn [edges_after edges_of]. names_cases n m Hl;
+      destruct expected; cbn; try reflexivity; destruct n0 as [|[|[|[|n0]]]]; try lia; reflexivity. }
+  rewrite Hr in C4. cbn [orb] in C4.
+  assert (alive_in (snap_of (MOneway n m) va vb) 0%nat && alive_in (ob_vals (snd r)) 0%nat = true) as Ha.
+  { rewrite Hv. cbn [snap_of]. unfold alive_in. cbn.
+    destruct Ta as (? & ? & ? & ? & ->). destruct Hi' as ((? & ? & ? & ? & ->) & _). reflexivity. }
+  cbn [fst] in C4. rewrite Ha in C4. cbn [negb orb] in C4. apply andb_prop in C4. destruct C4 as [C4a C4b].
+  apply oval_eqb_eq in C4a. apply Z.eqb_eq in C4b. split; [|exact C4b].
+  rewrite C4a. cbn [snap_of]. apply sval2.
+Qed.
